@@ -41,6 +41,7 @@ class _State:
     atom_by_ast = {}       # z3 ast id -> atom id
     n_atoms = 0
     n_fresh = 0
+    abs_atoms = {}         # atom id -> SR q  (atom == |q|), so atom**2 == q**2
 
 
 ST = _State()
@@ -51,6 +52,7 @@ def reset_atoms():
     ST.atom_by_ast = {}
     ST.n_atoms = 0
     ST.n_fresh = 0
+    ST.abs_atoms = {}
 
 
 def _new_atom(zexpr):
@@ -297,6 +299,8 @@ class SR(object):
                     p.pop(m, None)
         if len(p) > MAX_MONOMIALS:
             raise SymUnsupported('polynomial blow-up (%d monomials)' % len(p))
+        if ST.abs_atoms:
+            p = _reduce_abs_squares(p)
         return _norm(p)
 
     def __rmul__(self, o):
@@ -435,6 +439,55 @@ def _canon_sign(d):
         return d, False
     q = SR({m: k / c for m, k in d.p.items()})
     return q, c < 0
+
+
+def _reduce_abs_squares(p):
+    """rewrite |q|**2 -> q**2 inside a polynomial (|q| atoms are registered by sym_abs)."""
+    for _ in range(8):
+        hit = False
+        for m in p:
+            for a, e in m:
+                if e >= 2 and a in ST.abs_atoms:
+                    hit = True
+                    break
+            if hit:
+                break
+        if not hit:
+            return p
+        out = {}
+        for m, c in p.items():
+            tgt = None
+            for a, e in m:
+                if e >= 2 and a in ST.abs_atoms:
+                    tgt = (a, e)
+                    break
+            if tgt is None:
+                v = out.get(m, ZERO) + c
+                if v:
+                    out[m] = v
+                else:
+                    out.pop(m, None)
+                continue
+            a, e = tgt
+            rest = tuple((x, k) for x, k in m if x != a)
+            if e % 2:
+                rest = tuple(sorted(rest + ((a, 1),)))
+            q = ST.abs_atoms[a]
+            q2 = q * q
+            term = SR({rest: c})
+            for _k in range(e // 2):
+                term = term * q2
+                if not isinstance(term, SR):
+                    break
+            if isinstance(term, SR):
+                for m2, c2 in term.p.items():
+                    v = out.get(m2, ZERO) + c2
+                    if v:
+                        out[m2] = v
+                    else:
+                        out.pop(m2, None)
+        p = out
+    return p
 
 
 def _norm(p):
@@ -606,7 +659,10 @@ def sym_abs(x):
     q, neg = _canon_sign(x)
     # |x| = |c| * |q| with q canonical, so |x| and |-x| share one atom
     c = x.p[min(x.p)]
-    return SR.atom(z3.If(q.z >= 0, q.z, -q.z)) * abs(c)
+    at = SR.atom(z3.If(q.z >= 0, q.z, -q.z))
+    (m, _), = at.p.items()
+    ST.abs_atoms.setdefault(m[0][0], q)
+    return at * abs(c)
 
 
 def sym_sign(x):
